@@ -255,7 +255,7 @@ def run(chk):
         sq.append((s, gen_cfgs(True), rng.choice([None, 1, 2, 3]), rng.choice([None, 2, 4, 12])))
         if rng.random() < 0.5:
             sq.append((s, gen_cfgs(False), rng.choice([None, 1, 2, 3]), rng.choice([None, 2, 4, 12])))
-    for _ in range(300 if tier == 'quick' else 3000):
+    for _ in range(300 if tier == 'quick' else 10000):
         s = ''.join(rng.choice(AA + 'KRPDE') for _ in range(rng.randint(0, 40)))
         sq.append((s, gen_cfgs(rng.random() < 0.6), rng.choice([None, 1, 2, 3, 6]), rng.choice([None, 4, 12, 30])))
     # the known-finding witness and its neighbours, always
